@@ -125,12 +125,14 @@ pub fn oracles_for(property: &str, recs: &[RunRecord]) -> Vec<Violation> {
             "C13" => {
                 out.extend(oracle::no_write_oracle(property, run, i));
                 if run.trace.fired.iter().any(|f| f.site == "stdout.write" && f.kind == "EPIPE") {
-                    // a diff could not be delivered: that is an error, whatever else happened
-                    if run.status != 2 {
+                    // a diff could not be delivered.  Reporting that as an error (2) is fine, and so
+                    // is the status the files themselves call for; anything lower hides a
+                    // difference or a failure
+                    if run.status != 2 && run.status != ex.status {
                         out.push(Violation {
                             property: property.into(),
-                            class: format!("status/stdout-error-not-reported/got-{}", run.status),
-                            detail: "stdout write failed (EPIPE) but the exit status is not 2".into(),
+                            class: format!("status/after-stdout-error/expected-{}-or-2-got-{}", ex.status, run.status),
+                            detail: "stdout write failed (EPIPE) and the exit status is below what the files call for".into(),
                             inv_index: i,
                         });
                     }
